@@ -176,8 +176,13 @@ fn main() {
                 }
             }
             // ---- inflight: schedule with block_on_inflight skips while a compaction job is spawned and not ended (cache present only; best effort) ----
-            if mode == 1 {
+            if mode == 1 { for finished_job_after in [false, true] {
                 let st = fresh(mode); build(&st, &ops).unwrap();
+                // a NEWER summarizer job that has already ended does not hide an older one that has not
+                if finished_job_after {
+                    let _ = st.append_job_spawned(T, "j-newer", COMPACTION_JOB_KIND_SUMMARIZER_V1, None, "u".into(), "o".into());
+                    let _ = st.append_job_ended(T, JobEndedPayload { job_id: "j-newer".into(), job_kind: COMPACTION_JOB_KIND_SUMMARIZER_V1.into(), status: "completed".into(), result: None, error: None, actor_id: "u".into(), origin: "o".into() });
+                }
                 let before = st.replay_events(T).unwrap();
                 let inflight = { let mut ended = std::collections::HashSet::new(); let mut f = false;
                     for e in before.iter().rev() { match &e.kind { EventKind::ContinuityJobEnded { job_id, job_kind, .. } if job_kind == COMPACTION_JOB_KIND_SUMMARIZER_V1 => { ended.insert(job_id.clone()); }
@@ -187,7 +192,7 @@ fn main() {
                 let cps = after[before.len()..].iter().filter(|e| matches!(e.kind, EventKind::ContinuityCompactionCheckpointCreated { .. })).count();
                 if inflight && !r.planned.is_empty() && (r.decision != "skipped_inflight" || cps != 0) { fail("ContinuityStore::compaction_auto_schedule_v1", "inflight_job_blocks_a_new_one", &ops, mode, stride, format!("decision {} with a compaction job in flight; {} checkpoint(s) created", r.decision, cps)); }
                 if !inflight && !r.planned.is_empty() && r.decision != "completed" { fail("ContinuityStore::compaction_auto_schedule_v1", "auto_creates_precisely_the_planned_checkpoints", &ops, mode, stride, format!("decision {} error {:?}", r.decision, r.error)); }
-            }
+            } }
         } }
     } }
 }
